@@ -49,7 +49,8 @@ CLAIMED.update({
     "C03": _c("Lean page-tree model of the Hilbert R-tree (Model/RTree.lean) proved for every permutation of the rows (so for every p) and every "
               "page size; correspondence: exhaustive d=1 (n<=3, endpoints 0..3 or NaN, every page size and query), small exhaustive d=2, seeded "
               "trees up to n=2000 with ties, NaN rows, pickled and re-queried instances; results collected before comparison.",
-              STD_NOTE + "The array encoding of the tree (index arithmetic) is validated by the correspondence, not proved.",
+              STD_NOTE + "The array encoding is covered too: index arithmetic (closed forms of _start_index / _stop_index, leaf test) and the stack traversal "
+              "over bounds_tree are proved equal to the recursive query; the ties compare the real index functions and the real bounds_tree rows with the model.",
               "Lean 4 proof by induction over the page tree + correspondence", "I.2 C03, II §3 C03"),
     "C13": _c("Lean model of the NaN-aware bounds scans (Model/Bounds.lean) with the theorems of Props/C13.lean; correspondence for all kinds x "
               "subtypes, missing / empty / non-finite coordinates, derived arrays with non-zero offsets, GeoSeries / Dask / spatial-index wrappers.",
